@@ -29,6 +29,7 @@ import Hw.Attr.CpuKindsLemmas
 import Hw.Attr.CpuKindsRank
 import Hw.Attr.CpuKindsRefine
 import Hw.Attr.CpuKindsClasses
+import Hw.Attr.CpuKindsAllowedLemmas
 namespace Hw.Props.C15
 open Hw Hw.CpuKinds
 
@@ -362,6 +363,94 @@ theorem C15_finding_split_drops_forced :
         = [(0x2, 5), (0x1, -1)]) ∧
     ((internalRegister st0 0x3 (-1) [("CoreType", "IntelAtom")] 0).1.kinds.map (fun k => (k.cpuset, k.forced))
         = [(0x3, 5)]) := by
+  decide
+
+/-! ## Disallowed PUs (HWLOC_TOPOLOGY_FLAG_INCLUDE_DISALLOWED + hwloc_topology_allow)
+
+`Hw.Attr.CpuKindsAllowed`: `TState` adds the flag and `topology->allowed_cpuset` to the cpukinds state, `allow` is
+`hwloc_topology_allow(topology, cpuset, NULL, flags)`, `restrictT` is `hwloc_topology_restrict` (refused iff the set
+misses the ALLOWED cpuset; root and allowed are both cut by the set; kinds are cut by the NEW ROOT), `runT` runs
+histories of register / restrict / dup / XML / refresh / allow.  "Intersected with the topology after a restrict" in
+the property means the root cpuset: a PU that is disallowed but still in the topology stays in its kind. -/
+
+/-- restrict: every kind's cpuset is cut by the NEW ROOT cpuset `root ∩ set` and emptied kinds are dropped — the result
+    (cpuset, forced efficiency, infos of every kind; up to the re-ranking order) does not mention the allowed cpuset,
+    which is merely cut by the set as well. -/
+theorem C15_restrict_cuts_by_root (strat : Strategy) (t : TState) (set : Nat) (h : t.allowed &&& set ≠ 0) :
+    SameCore ((t.st.kinds.map (fun k => { k with cpuset := k.cpuset &&& (t.st.root &&& set) })).filter
+               (fun k => decide (k.cpuset ≠ 0)))
+             (restrictT strat t set).1.st.kinds ∧
+    (restrictT strat t set).1.st.root = t.st.root &&& set ∧
+    (restrictT strat t set).1.allowed = t.allowed &&& set :=
+  restrictT_kinds strat t set h
+
+/-- PU by PU: after a successful restrict a PU belongs to some kind iff it did before and it is still in the topology
+    (new root cpuset) — allowed or not. -/
+theorem C15_restrict_covers (strat : Strategy) (t : TState) (set : Nat) (h : t.allowed &&& set ≠ 0) (p : Nat) :
+    (∃ k ∈ (restrictT strat t set).1.st.kinds, k.cpuset.testBit p = true) ↔
+      (∃ k ∈ t.st.kinds, k.cpuset.testBit p = true) ∧ (t.st.root &&& set).testBit p = true :=
+  restrictT_covers strat t set h p
+
+/-- two topologies with the same kinds and root cpuset but DIFFERENT allowed cpusets (both met by the set) have the same
+    kinds and root cpuset after the restrict; a set that misses the allowed cpuset is refused and nothing moves. -/
+theorem C15_restrict_independent_of_allowed (strat : Strategy) (t1 t2 : TState) (set : Nat) (hst : t1.st = t2.st)
+    (h1 : t1.allowed &&& set ≠ 0) (h2 : t2.allowed &&& set ≠ 0) :
+    (restrictT strat t1 set).1.st = (restrictT strat t2 set).1.st ∧
+    (∀ t : TState, t.allowed &&& set = 0 → restrictT strat t set = (t, .einval)) := by
+  refine ⟨?_, fun t h => by simp [restrictT, h]⟩
+  simp only [restrictT, if_neg h1, if_neg h2, hst]
+
+/-- hwloc_topology_allow — whatever its arguments and outcome — leaves the kinds array, the root cpuset and the flag
+    alone; without INCLUDE_DISALLOWED it is refused. -/
+theorem C15_allow_keeps_kinds (t : TState) (cs : Option Nat) (fl : Nat) :
+    (allow t cs fl).1.st = t.st ∧ (allow t cs fl).1.inclDis = t.inclDis ∧
+    (t.inclDis = false → allow t cs fl = (t, .einval)) :=
+  ⟨allow_st t cs fl, allow_inclDis t cs fl, fun h => allow_noflag t h cs fl⟩
+
+/-- after ANY history with allow calls: allowed ⊆ root, equal without the flag, non-empty on a non-empty topology
+    (hence a restrict accepted by the allowed-cpuset test never empties the topology). -/
+theorem C15_allowed_within_root (strat : Strategy) (root : Nat) (d : Bool) (h : List TOp) :
+    let t := runT strat root d h
+    t.allowed &&& t.st.root = t.allowed ∧ (t.inclDis = false → t.allowed = t.st.root) ∧
+    (t.st.root ≠ 0 → t.allowed ≠ 0) :=
+  let W := runT_wf strat root d h
+  ⟨W.sub, W.eq, W.ne⟩
+
+/-- histories with INCLUDE_DISALLOWED and allow calls reduce to plain histories: the cpukinds state after `h` is the
+    state after `traceT .. h` (allow calls erased, restricts refused for missing the allowed cpuset turned into refused
+    restricts), so EVERY theorem of this file about `run` holds for `runT`. -/
+theorem C15_allow_history_reduces (strat : Strategy) (root : Nat) (d : Bool) (h : List TOp) :
+    (runT strat root d h).st = run strat root (traceT strat (tinit root d) h) :=
+  runT_eq_run strat root d h
+
+/-- e.g. the partition: non-empty, pairwise disjoint kinds whose union is the reference coverage of the reduced history
+    (registered PUs cut by the ROOT cpuset of every successful restrict). -/
+theorem C15_kinds_partition_disallowed (strat : Strategy) (root : Nat) (d : Bool) (h : List TOp) :
+    let ks := (runT strat root d h).st.kinds
+    let g := runGhost root (traceT strat (tinit root d) h)
+    (∀ k ∈ ks, k.cpuset ≠ 0) ∧ ks.Pairwise (fun a b => a.cpuset &&& b.cpuset = 0) ∧
+    (∀ p, (∃ k ∈ ks, k.cpuset.testBit p = true) ↔ g.cov.testBit p = true) ∧
+    g.root = (runT strat root d h).st.root := by
+  intro ks g
+  have e := runT_eq_run strat root d h
+  have P := C15_kinds_partition strat root (traceT strat (tinit root d) h)
+  simp only [ks, g, e]
+  exact P
+
+/-! non-vacuity (the scenario of corpus/cpukinds/C15-r2-restrict-keeps-disallowed-pus.txt and a refused restrict) -/
+example :
+    let t := runT .dflt 0xff true [.allow (some 0x3f) 4, .op (.register (some 0x0f) 10 [] 0),
+                                   .op (.register (some 0xf0) 20 [] 0), .op (.restrict 0xfc)]
+    (t.st.kinds.map (fun k => (k.cpuset, k.eff)), t.st.root, t.allowed) = ([(0x0c, 0), (0xf0, 1)], 0xfc, 0x3c) := by
+  decide
+example :
+    let t := runT .dflt 0xff true [.allow (some 0x3f) 4, .op (.register (some 0xf0) 20 [] 0)]
+    t.allowed &&& 0xc0 = 0 ∧ (restrictT .dflt t 0xc0).2 = .einval ∧ (restrict .dflt t.st 0xc0).2 = .ok := by
+  decide
+example :
+    (traceT .dflt (tinit 0xff true) [.allow (some 0x3f) 4, .op (.register (some 0xf0) 20 [] 0), .op (.restrict 0xc0),
+                                     .allow none 1, .op (.restrict 0xc0)]).map
+        (fun o => match o with | .restrict s => some s | _ => none) = [none, some 0, some 0xc0] := by
   decide
 
 /-! non-vacuity: a concrete history with a split, a merge, a restrict that removes a kind, and a ranking -/
